@@ -7,6 +7,7 @@ package main
 
 import (
 	"bytes"
+	"context"
 	"encoding/json"
 	"fmt"
 	"io"
@@ -33,6 +34,7 @@ type OracleResp struct {
 	CfgErr  string         `json:"cfg_err,omitempty"`
 	Results map[string]Res `json:"results"`
 	Panics  map[string]string `json:"panics,omitempty"` // lint -> panic that escaped Lint*Ex
+	Hung    bool              `json:"hung,omitempty"`   // the reference process did not finish (client side only, never cached)
 }
 
 func (r *OracleReq) key() string {
@@ -207,12 +209,19 @@ func refReq(req *OracleReq) *OracleResp {
 			return &r
 		}
 	}
-	cmd := exec.Command(exe, "oracle")
+	ctx, cancel := context.WithTimeout(context.Background(), 4*opHangLimit)
+	defer cancel()
+	cmd := exec.CommandContext(ctx, exe, "oracle")
 	cmd.Stdin = bytes.NewReader([]byte(mustJSON(req)))
 	cmd.Env = append(os.Environ(), "ZSIM_BINHASH="+hash)
 	var out, errb bytes.Buffer
 	cmd.Stdout, cmd.Stderr = &out, &errb
 	if err := cmd.Run(); err != nil {
+		if ctx.Err() == context.DeadlineExceeded {
+			// the lint of this object alone, in a fresh process, does not return either
+			oracleCounters.inc("oracle_process_hung")
+			return &OracleResp{Results: map[string]Res{}, Panics: map[string]string{}, Hung: true}
+		}
 		die(2, "oracle process failed: %v: %s", err, errb.String())
 	}
 	var r OracleResp
